@@ -23,7 +23,7 @@ RULE = ("Hypothesis generates call histories: 1-3 initial sites (1-3 orbitals, 1
 ASSUMPTIONS = ["site labels are unique within a history (re-adding a label is outside the statement)",
                "the exception type is not judged, only that one is thrown", "a rejected preset may have stored part of its expansion (only addTerm is required to leave the lattice unchanged)"]
 CONFIG = {
-    "quick": {"flavours": ["real"], "shards": 8, "examples": 250, "min_nontrivial": 300, "budget_s": 90},
+    "quick": {"flavours": ["real"], "shards": 8, "examples": 1000, "min_nontrivial": 300, "budget_s": 120},
     "thorough": {"flavours": ["real", "complex"], "shards": 16, "examples": 4000, "min_nontrivial": 5000, "budget_s": 3000},
 }
 REQUIRED_CLASSES = {"quick": ["rejected-term", "rejected-preset", "zero-amplitude", "getsite-known", "getsite-unknown", "copy", "order-6"],
